@@ -287,6 +287,18 @@ def val_executed(ctx: Ctx) -> RuleResult:
     r.ob(len(ifs) == 1, {"second run refused": len(ifs) == 1})
     if not ifs:
         r.violate("BaseDAGExecution._pre_call: an executed executor is not refused", pre.loc(), "", None)
+    else:
+        # every way out of the function has passed the refusal: no return is reached without `not self.executed`
+        for rt in [n for n in iter_own_nodes(pre.node) if isinstance(n, ast.Return)]:
+            conds = reach_conditions(pre.node, rt)
+            if conds is None:
+                continue
+            passed = any((not pol) and norm_src(c) == "self.executed" for c, pol in conds)
+            r.ob(passed, {"return": norm_src(rt)[:60], "reached only after the refusal": passed})
+            if not passed:
+                r.violate("BaseDAGExecution._pre_call: a return is reached without the 'already executed' refusal", pre.loc(rt),
+                          "on that path an executor that has run can run again: it starts from its own complete result map, the scheduler "
+                          "prunes every node and the values of the first run come back for the new arguments", norm_src(rt)[:80])
     sets = [n for n in iter_own_nodes(post.node) if isinstance(n, ast.Assign) and norm_src(n.targets[0]) == "self.executed"
             and isinstance(n.value, ast.Constant) and n.value.value is True]
     r.ob(len(sets) == 1, {"flag set after the run": len(sets) == 1})
